@@ -354,7 +354,7 @@ func shrinkProg(p Prog, valid func(Prog) bool, fails func(Prog) bool) Prog {
 		// simplify tokens
 		simpler := map[string]string{"ab": "a", "b": "a", "c": "a", "a-c": "a", "!-~": "a", "{2}": "?", "+": "?", "*": "?", "(": "(?:",
 			`\"`: `"`, `\Q"\E`: `"`, `\x22`: `"`, `\x5c`: `\\`, `\x{2019}`: "é", "\x7f": "\x01",
-			"##!> cmdline windows": "##!> cmdline unix", "  a": "a"}
+			"##!> cmdline windows": "##!> cmdline unix", "  a": "a", "a~": "aa", "b@": "aa", "{{d}}b": "aa", "aa": "a"}
 		for i := 0; i < len(p.Lines); i++ {
 			for j := 0; j < len(p.Lines[i]); j++ {
 				if s, ok := simpler[p.Lines[i][j]]; ok {
